@@ -319,6 +319,12 @@ def strat_files(draw, tier):
     c["cps"], c["nsel"] = cps, nb * cps
     c["chanstart"] = draw(st.integers(0, nchans - nb * cps))
     c["chans"] = draw(st.lists(st.integers(0, nchans - 1), min_size=1, max_size=3, unique=True))
+    if nchans >= 3 and draw(st.integers(0, 2)) == 0:
+        # a gap-free run of channels listed in another order than ascending ([9,8,7,6], [3,4,5,2])
+        k = draw(st.integers(2, min(5, nchans)))
+        a = draw(st.integers(0, nchans - k))
+        run = list(range(a, a + k))
+        c["chans"] = run[::-1] if draw(st.booleans()) else run[1:] + run[:1]
     c["batch"] = draw(st.sampled_from([1, 2, 200]))
     return c
 
@@ -372,6 +378,10 @@ def check_files(case, ctx):
         require(h.nsamples == s.eff and h.nchans == 1, "extract_chans:shape", f"{s.ctxt}: {h.nsamples},{h.nchans}")
         s.tstart_ok("extract_chans", h.tstart, s.start)
         s.labels_ok("extract_chans", h.fch1, h.foff, 1, [[ch]])
+        # ... and the label must belong to the channel the file actually holds
+        if not np.array_equal(np.asarray(ts.data, dtype=np.float32), s.X[:, ch].astype(np.float32)):
+            held = [int(c2) for c2 in range(s.nchans) if np.array_equal(np.asarray(ts.data, dtype=np.float32), s.X[:, c2].astype(np.float32))]
+            raise Violation("extract_chans:label-of-another-channel", f"{s.ctxt} chans={chans}: the file for channel {ch} (labelled {h.fch1!r} MHz) holds the samples of channel(s) {held}")
         require(h.tsamp == s.tsamp, "extract_chans:tsamp")
     if any(c > 0 for c in chans):
         lab.append("selection_offset>0")
